@@ -15,6 +15,9 @@ THEOREMS = [
     "C11_int_eq_its_float_partial",
     "C11_functions_never_equal", "C11_nil_operand_is_error", "C11_op_total",
     "C11_slice_len", "C11_slice_split_concat", "C11_len_concat", "C11_index_error_iff",
+    "C11_logic_commutes", "C11_logic_associates_bool", "C11_logic_associates_int", "C11_not_flip_involutive",
+    "C11_de_morgan", "C11_flip_is_complement", "C11_shift_total", "C11_shift_count_out_of_range",
+    "C11_shift_zero_is_identity",
 ]
 
 BINOPS = ["+", "-", "*", "/", "%", "&", "|", "<", ">", "<=", ">=", "==", "!=", "<<", ">>"]
